@@ -29,6 +29,7 @@ THEOREMS = [
     "Aio.C18.resume_delivers_cancel",
     "Aio.C18.others_unaffected_step",
     "Aio.C18.pool_cowaiter_wakeup_passed_on",
+    "Aio.C18.redirect_keeps_total",
     "Aio.C18.interim_timer",
     "Aio.C18.continue_released_no_timer",
     "Aio.C18.effWs_close_indep",
@@ -81,8 +82,8 @@ TRUSTED_BASE = [
     "co-requests H and C are environment actors whose own exchanges complete at once when unblocked",
 ]
 ASSUMPTIONS = [
-    "the model has a single hop: followed redirects are judged by the direct oracle only (total spans all hops; connect / "
-    "sock_connect / sock_read are judged per hop from the second hop's own trace)",
+    "redirects: one followed redirect to another host (literal address) with an empty 3xx body is modelled (`redirectStep`); "
+    "the oracle judges connect / sock_connect / sock_read per hop from the second hop's own trace, total across hops",
     "behaviour flag interimKeepsTimerWhenSent (after a 1xx interim response, does ResponseHandler.data_received keep the read "
     "timer when start_timeout() had been called?) is probed from the imported source on every run and written to "
     "Generated/C18.lean; the model is parametric in it and all theorems build for both values",
@@ -333,6 +334,8 @@ def gen_pool_race(rng):
     sc.update(holder=rel, dns=None, co=rng.choice(["pool", "pool", None]), naddr=1)
     sc["conn"] = [rel + 7]
     sc["resp"] = [[q[0] + shift + 10000] + q[1:] for q in sc["resp"]]
+    if sc.get("peof") is not None:
+        sc["peof"] += shift + 10000      # the peer's close moves with its response (never before it)
     if sc.get("wresume") not in (None, -1):
         sc["wresume"] = rel + 8
     how = rng.choice(["late", "early", "timer", "timer-1", "after"])
@@ -638,11 +641,11 @@ def gen_overlap(rng):
 
 
 def gen_redirect(rng):
-    """(oracle only: the model has a single hop) a followed redirect to another host, then a stall on the second
+    """a followed redirect to another host, then a stall on the second
     hop — connecting, awaiting the head, inside the head, inside the body — or none; one timeout kind or a caller cancel.
     `total` spans all hops; `connect`/`sock_connect` start again with the second hop's connection"""
     kinds = ["total", "connect", "sock_connect", "sock_read"]
-    sc = {"t0": rng.choice(T0S), "holder": None, "dns": None, "co": None, "cancel": None, "redirect": 1, "oracle_only": 1}
+    sc = {"t0": rng.choice(T0S), "holder": None, "dns": None, "co": None, "cancel": None, "redirect": 1}
     for k in kinds:
         sc[k] = None
     how = rng.choice(["total", "total", "total", "sock_read", "connect", "sock_connect", "cancel"])
@@ -740,7 +743,9 @@ def model_line(sc):
     if sc.get("wresume") is not None and sc["wresume"] >= 0:
         add(sc["wresume"], 6, "W")
     for j, q in enumerate(sc.get("resp", [])):
-        add(q[0], 7 + j, f"B{q[2]}.{q[3]}.{q[4]}.{q[5]}" + (".1" if (len(q) > 6 and q[6]) else ""))
+        im = 1 if (len(q) > 6 and q[6]) else 0
+        rd = 1 if (sc.get("redirect") and j == 0 and q[5]) else 0      # the first, complete response of a redirect scenario
+        add(q[0], 7 + j, f"B{q[2]}.{q[3]}.{q[4]}.{q[5]}" + (f".{im}.{rd}" if rd else (".1" if im else "")))
     if sc.get("peof") is not None:
         add(sc["peof"], 900, "E")
     if sc.get("cancel") is not None:
